@@ -19,6 +19,32 @@ def put(s, name, body):
     if a not in s:
         return s + '\n' + a + '\n' + body + '\n' + z + '\n'
     return s[:s.index(a) + len(a)] + '\n' + body + '\n' + s[s.index(z):]
+# fixes table from known_findings.jsonl (status fixed) + commit subjects of /repo
+frows = ['| prop | commit | subject of the `fix:` commit | failing input before the fix |', '|---|---|---|---|']
+nfix = 0
+for l in open(os.path.join(VERIF, 'known_findings.jsonl')):
+    l = l.strip()
+    if not l:
+        continue
+    d = json.loads(l)
+    if d.get('status') != 'fixed':
+        continue
+    nfix += 1
+    subj = subprocess.run(['git', '-C', os.environ.get('VERIF_REPO', '/repo'), 'log', '-1', '--format=%s', d['commit']],
+                          stdout=subprocess.PIPE, stderr=subprocess.DEVNULL, text=True).stdout.strip()
+    what = re.sub(r'^fixed: property=\S+ \S+ ', '', d['line']).replace('|', '\\|')
+    frows.append('| %s | `%s` | %s | %s |' % (d['property'], d['commit'], subj.replace('fix: ', '').replace('|', '\\|'), what))
+s = put(s, 'FIXES', '\n'.join(frows) + '\n\n%d `fix:` commits in all.' % nfix)
+# theorem counts of the status table from the evidence files
+def thm(m):
+    try:
+        ev = json.load(open(os.path.join(VERIF, 'evidence', m.group(1) + '.json')))
+        n = ev.get('coverage', {}).get('obligations')
+        return '| %s | %s |' % (m.group(1), n if n else m.group(2))
+    except (OSError, ValueError):
+        return m.group(0)
+s = re.sub(r'^\| (C\d\d) \| (\d+) \|', thm, s, flags=re.M)
+s = re.sub(r'Repaired defects: \d+', 'Repaired defects: %d' % nfix, s)
 s = put(s, 'SEEDED', tab)
 s = put(s, 'BENIGN', '\n'.join(rows))
 open(p, 'w').write(s)
